@@ -402,7 +402,7 @@ func runSamplers(c *eng.Ctx, ps pset) {
 	}
 	for _, k := range samplerKinds(n) {
 		k := k
-		ctor := map[string]string{"gaussian": "ring.GaussianSampler.AtLevel", "ternary": "ring.TernarySampler.AtLevel", "uniform": "ring.UniformSampler.AtLevel"}[k.name[:7]]
+		ctor := map[string]string{"gaussia": "ring.GaussianSampler.AtLevel", "ternary": "ring.TernarySampler.AtLevel", "uniform": "ring.UniformSampler.AtLevel"}[k.name[:7]]
 		for l := 0; l <= rq.MaxLevel(); l++ {
 			key := fmt.Sprintf("%s/%s/l%d", ps.Name, k.name, l)
 			c.Distinct(ctor+"/"+key, true)
